@@ -38,6 +38,39 @@ class SimTimeout(Exception):
     """harness-level wall timeout of one child"""
 
 
+class ChildBlocked(Exception):
+    """the child got everything it is ever going to get, burns no CPU, and does not finish"""
+
+
+def _cpu_ticks(pid: int):
+    try:
+        with open(f"/proc/{pid}/stat", "rb") as f:
+            rest = f.read().rsplit(b")", 1)[1].split()
+        return int(rest[11]) + int(rest[12])
+    except (OSError, IndexError, ValueError):
+        return None
+
+
+class BlockedChild:
+    """after stdin has been delivered completely: 30 s without a CPU tick and without an output byte"""
+
+    def __init__(self, pid):
+        self.pid = pid
+        self.mark = None
+
+    def check(self, stdin_done: bool, progress: int):
+        if not stdin_done:
+            self.mark = None
+            return
+        now = time.time()
+        state = (_cpu_ticks(self.pid), progress)
+        if self.mark is None or state != self.mark[1]:
+            self.mark = (now, state)
+            return
+        if state[0] is not None and now - self.mark[0] > 30.0:
+            raise ChildBlocked()
+
+
 # ------------------------------------------------------------------------------------------
 def _exit_like_cpython(code: int):
     try:
@@ -146,12 +179,22 @@ def drive(run: dict, data: bytes) -> dict:
     w0_open = True
     buf = array.array("i", [0])
     deadline = time.time() + WALL_RUN
+    # stalls: legal schedules in which a peer is simply slow in REAL time (the child's own timers, if it has
+    # any, are the kernel's; nothing short of waiting makes them fire)
+    stall = run.get("stall") or {}
+    t_fork = time.time()
+    stall_first = float(stall.get("first", 0))
+    stall_mid = stall.get("mid")  # [chunk index, seconds]
+    stall_out = float(stall.get("out", 0))
+    mid_until = 0.0
     close_out_at = fault.get("at") if fault.get("kind") == "close_stdout" else None
     close_err_at = fault.get("at") if fault.get("kind") == "close_stderr" else None
+    watch = BlockedChild(pid)
     try:
         while open_fds or w0_open:
             if time.time() > deadline:
                 raise SimTimeout()
+            watch.check(not w0_open and time.time() - t_fork >= stall_out, len(out) + len(err))
             if w0_open:
                 fcntl.ioctl(w0, termios.FIONREAD, buf)
                 p = select.poll()
@@ -159,7 +202,13 @@ def drive(run: dict, data: bytes) -> dict:
                 if p.poll(0):
                     os.close(w0)
                     w0_open = False
+                elif buf[0] == 0 and (time.time() - t_fork < stall_first or time.time() < mid_until):
+                    probes["stalled"] = probes.get("stalled", 0) + 1
+                    time.sleep(0.005)
                 elif buf[0] == 0:
+                    if stall_mid and ci == int(stall_mid[0]) and not mid_until and pos < len(data) and ci > 0:
+                        mid_until = time.time() + float(stall_mid[1])
+                        continue
                     if pos < len(data):
                         c = chunks[ci] if ci < len(chunks) else 4096
                         ci += 1
@@ -186,6 +235,8 @@ def drive(run: dict, data: bytes) -> dict:
                 continue
             p = select.poll()
             for fd in open_fds:
+                if fd == r1 and time.time() - t_fork < stall_out:
+                    continue  # the consumer of stdout is not reading yet
                 p.register(fd, select.POLLIN | select.POLLHUP)
             ev = p.poll(1)
             ready = sorted((fd for fd, _ in ev), key=lambda fd: open_fds[fd])
@@ -224,9 +275,10 @@ def drive(run: dict, data: bytes) -> dict:
                 break
             if time.time() > wdl:
                 raise SimTimeout()
+            watch.check(True, len(out) + len(err))
             time.sleep(0.001)
         return _result(st, out, err, probes, reaped=True)
-    except SimTimeout:
+    except (SimTimeout, ChildBlocked) as stop:
         try:
             os.kill(pid, signal.SIGKILL)
             os.waitpid(pid, 0)
@@ -237,7 +289,7 @@ def drive(run: dict, data: bytes) -> dict:
                 os.close(fd)
             except OSError:
                 pass
-        return {"exit": None, "timeout": True, "out": bytes(out), "err": bytes(err), "probes": probes}
+        return {"exit": None, "timeout": True, "blocked": isinstance(stop, ChildBlocked), "out": bytes(out), "err": bytes(err), "probes": probes}
 
 
 def _result(st, out, err, probes, reaped):
@@ -315,6 +367,8 @@ def judge(run: dict, exp: dict, ref: dict | None, res: dict) -> tuple[str, str]:
     from sim import climodel
 
     fault = run.get("fault")
+    if res.get("blocked"):
+        return "violation:does-not-terminate", "stdin delivered and closed, outputs drained, no CPU use for 30 s, still alive"
     if res.get("timeout"):
         return "harness-timeout", ""
     out = res["out"]
